@@ -616,9 +616,9 @@ def zaddCmpA (f : ZSet → Bytes → F64 → ZSet × Bool) (key m : Bytes) (sc :
 
 theorem zaddCmp_eq (f : ZSet → Bytes → F64 → ZSet × Bool) (s : MState) (now : Int) (k m : Bytes) (sc : F64) :
     Api.zaddCmp f s now k m sc =
-      writeCmd (some (.zset DsZSet.empty)) .unit (actOn zsetOf (zaddCmpA f k m sc)) s now k := by
+      writeCmd none (.int 0) (actOn zsetOf (zaddCmpA f k m sc)) s now k := by
   unfold Api.zaddCmp writeCmd
-  create_eq (Val.zset DsZSet.empty), zsetOf [asZSet_eq, zaddCmpA]
+  write_eq zsetOf [asZSet_eq, zaddCmpA]
 
 def zaddXXA (key m : Bytes) (sc : F64) : ZSet → Int → Act := fun z _ =>
   if !AList.contains z.dict m then { out := .int 0 } else
